@@ -62,3 +62,512 @@ theorem escape_isSome (rest : Bytes) : (escape rest).isSome = true := by
     by_cases h : 48 ≤ c ∧ c ≤ 55
     · simp only [h, hj h, if_false, ite_self]
     · simp only [h, if_false, ite_self]
+
+theorem escape_eq (rest : Bytes) : ∃ o k, escape rest = some (o, k) := by
+  have h := escape_isSome rest
+  cases he : escape rest with
+  | none => simp [he] at h
+  | some p => exact ⟨p.1, p.2, rfl⟩
+
+theorem popArg_nil : popArg [] = some ([], []) := rfl
+
+theorem popArg_cons (a : Bytes) (as : List Bytes) : popArg (a :: as) = some (a, as) := by
+  simp [popArg, idx?, slice?]
+
+/-! ### the fragment of fmt that is reached -/
+
+/-- Shape of `fmts` between iterations: empty, or `%`, at most one of `+ - space`, digits. -/
+def FmtsOK (fmts : Bytes) : Prop :=
+  fmts = [] ∨ ∃ fl ds, fmts = 37 :: (fl ++ ds) ∧ (fl = [] ∨ fl = [43] ∨ fl = [45] ∨ fl = [32]) ∧
+    ∀ d ∈ ds, isDec d = true
+
+/-- The verb/argument pairs formatInto passes to Fprintf. -/
+def VerbOK (v : UInt8) : FArg → Prop
+  | .int _ => v = 100
+  | .uint _ => v = 100 ∨ v = 111 ∨ v = 120
+  | .str _ => v = 115
+
+theorem printArg_v_isSome (fl : Flags) (w : Option Nat) (arg : FArg) :
+    (printArg fl w arg 118).isSome = true := by
+  cases arg <;> simp [printArg]
+
+theorem noVerbExtra_isSome (arg : FArg) : (noVerbExtra arg).isSome = true := by
+  unfold noVerbExtra
+  have h := printArg_v_isSome {} none arg
+  cases hp : printArg {} none arg 118 with
+  | none => simp [hp] at h
+  | some v => rfl
+
+theorem printArg_isSome (fl : Flags) (w : Option Nat) (arg : FArg) (v : UInt8) (h : VerbOK v arg) :
+    (printArg fl w arg v).isSome = true := by
+  cases arg with
+  | int x => simp only [VerbOK] at h; subst h; simp [printArg]
+  | uint x =>
+    simp only [VerbOK] at h
+    rcases h with h | h | h <;> subst h <;> simp [printArg]
+  | str x => simp only [VerbOK] at h; subst h; simp [printArg]
+
+theorem isDec_iff (c : UInt8) : isDec c = true ↔ 48 ≤ c ∧ c ≤ 57 := by
+  simp [isDec]
+
+/-- The flag loop over digits followed by a verb letter stops at the first non-zero digit or at
+    the verb. -/
+theorem parseFlags_digits (v : UInt8) (hv : v ≠ 48 ∧ v ≠ 43 ∧ v ≠ 45 ∧ v ≠ 32) :
+    ∀ (ds : Bytes) (fl : Flags), (∀ d ∈ ds, isDec d = true) →
+      ∃ fl' ds', parseFlags fl (ds ++ [v]) = (fl', ds' ++ [v]) ∧ (∀ d ∈ ds', isDec d = true) ∧
+        (∀ c rest, ds' = c :: rest → c ≠ 48)
+  | [], fl, _ => by
+    refine ⟨fl, [], ?_, by simp, by simp⟩
+    simp [parseFlags, hv.1, hv.2.1, hv.2.2.1, hv.2.2.2]
+  | d :: ds, fl, hds => by
+    have hd : isDec d = true := hds d (List.mem_cons_self ..)
+    have hds' : ∀ x ∈ ds, isDec x = true := fun x hx => hds x (List.mem_cons_of_mem _ hx)
+    rw [isDec_iff] at hd
+    by_cases h0 : d = 48
+    · subst h0
+      obtain ⟨fl', ds', h1, h2, h3⟩ := parseFlags_digits v hv ds { fl with zero := true } hds'
+      exact ⟨fl', ds', by simpa [parseFlags] using h1, h2, h3⟩
+    · refine ⟨fl, d :: ds, ?_, hds, ?_⟩
+      · have h43 : d ≠ 43 := by intro h; subst h; exact absurd hd.1 (by decide)
+        have h45 : d ≠ 45 := by intro h; subst h; exact absurd hd.1 (by decide)
+        have h32 : d ≠ 32 := by intro h; subst h; exact absurd hd.1 (by decide)
+        simp [parseFlags, h0, h43, h45, h32]
+      · intro c rest h; cases h; exact h0
+
+theorem parsenum_digits (v : UInt8) (hv : ¬ (48 ≤ v ∧ v ≤ 57)) :
+    ∀ (ds : Bytes) (num : Nat) (b : Bool), (∀ d ∈ ds, isDec d = true) →
+      parsenum (ds ++ [v]) num b = none ∨ ∃ n b', parsenum (ds ++ [v]) num b = some (n, b', [v])
+  | [], num, b, _ => by
+    right; exact ⟨num, b, by simp [parsenum, hv]⟩
+  | d :: ds, num, b, hds => by
+    have hd : isDec d = true := hds d (List.mem_cons_self ..)
+    have hds' : ∀ x ∈ ds, isDec x = true := fun x hx => hds x (List.mem_cons_of_mem _ hx)
+    rw [isDec_iff] at hd
+    simp only [List.cons_append, parsenum, hd, and_self, if_true]
+    split
+    · left; rfl
+    · exact parsenum_digits v hv ds _ true hds'
+
+theorem goFprintf_isSome (fmts : Bytes) (v : UInt8) (arg : FArg) (hne : fmts ≠ []) (hf : FmtsOK fmts)
+    (hv : VerbOK v arg) : (goFprintf (fmts ++ [v]) arg).isSome = true := by
+  rcases hf with hf | ⟨fl, ds, hf, hfl, hds⟩
+  · exact absurd hf hne
+  subst hf
+  -- facts about the verb
+  have hvv : v = 100 ∨ v = 111 ∨ v = 120 ∨ v = 115 := by
+    cases arg with
+    | int x => exact Or.inl hv
+    | uint x => rcases hv with h | h | h
+                · exact Or.inl h
+                · exact Or.inr (Or.inl h)
+                · exact Or.inr (Or.inr (Or.inl h))
+    | str x => exact Or.inr (Or.inr (Or.inr hv))
+  have hvflag : v ≠ 48 ∧ v ≠ 43 ∧ v ≠ 45 ∧ v ≠ 32 := by
+    rcases hvv with h | h | h | h <;> subst h <;> decide
+  have hvlow : 97 ≤ v ∧ v ≤ 122 := by
+    rcases hvv with h | h | h | h <;> subst h <;> decide
+  have hvnd : ¬ (48 ≤ v ∧ v ≤ 57) := by
+    rcases hvv with h | h | h | h <;> subst h <;> decide
+  have hvok : ¬ (v = 46 ∨ v = 42 ∨ v = 91 ∨ v = 37 ∨ v ≥ 128 ∨ ¬ True) := by
+    rcases hvv with h | h | h | h <;> subst h <;> decide
+  -- the flag loop
+  have key : ∀ fl0 : Flags, ∃ fl' ds', parseFlags fl0 (ds ++ [v]) = (fl', ds' ++ [v]) ∧
+      (∀ d ∈ ds', isDec d = true) ∧ (∀ c rest, ds' = c :: rest → c ≠ 48) :=
+    fun fl0 => parseFlags_digits v hvflag ds fl0 hds
+  have key2 : ∃ fl' ds', parseFlags {} (fl ++ ds ++ [v]) = (fl', ds' ++ [v]) ∧
+      (∀ d ∈ ds', isDec d = true) ∧ (∀ c rest, ds' = c :: rest → c ≠ 48) := by
+    rcases hfl with h | h | h | h <;> subst h
+    · simpa using key {}
+    · simpa [parseFlags] using key { plus := true }
+    · simpa [parseFlags] using key { minus := true }
+    · simpa [parseFlags] using key { space := true }
+  obtain ⟨fl', ds', hpf, hds', _⟩ := key2
+  have hshape : (37 :: (fl ++ ds) ++ [v]) = 37 :: (fl ++ ds ++ [v]) := by simp
+  rw [hshape]
+  unfold goFprintf
+  simp only [ne_eq, not_true_eq_false, if_false, hpf]
+  cases ds' with
+  | nil =>
+    simp only [List.nil_append, hvlow, and_self, if_true]
+    exact printArg_isSome _ _ _ _ hv
+  | cons d ds'' =>
+    have hd : isDec d = true := hds' d (List.mem_cons_self ..)
+    rw [isDec_iff] at hd
+    have hdlow : ¬ (97 ≤ d ∧ d ≤ 122) := by
+      intro h; exact absurd (Nat.le_trans h.1 hd.2) (by decide)
+    simp only [List.cons_append, hdlow, if_false]
+    have hp := parsenum_digits v hvnd (d :: ds'') 0 false hds'
+    simp only [List.cons_append] at hp
+    rcases hp with hp | ⟨n, b', hp⟩
+    · simp only [hp]; exact noVerbExtra_isSome arg
+    · simp only [hp, not_true_eq_false] at hvok ⊢
+      rw [if_neg hvok]
+      exact printArg_isSome _ _ _ _ hv
+
+/-- Invariant of the formatInto loop. -/
+def Inv (nested : Option (Bytes → Res)) (fmts : Bytes) : Prop :=
+  match nested with
+  | none => fmts = []
+  | some f => FmtsOK fmts ∧ ∀ a, (f a).good
+
+def Step.good (nested : Option (Bytes → Res)) : Step → Prop
+  | .cont _ st' _ => Inv nested st'.fmts
+  | .stop r => r.good
+
+theorem FmtsOK_nil : FmtsOK [] := Or.inl rfl
+
+theorem FmtsOK_pct : FmtsOK [37] := Or.inr ⟨[], [], rfl, Or.inl rfl, by simp⟩
+
+theorem FmtsOK_flag (fmts : Bytes) (c : UInt8) (hc : c = 43 ∨ c = 45 ∨ c = 32) (h : FmtsOK fmts)
+    (hne : fmts.length > 0) (hlen : ¬ fmts.length > 1) : FmtsOK (fmts ++ [c]) := by
+  rcases h with h | ⟨fl, ds, h, _, _⟩
+  · subst h; simp at hne
+  · subst h
+    have : fl = [] ∧ ds = [] := by
+      simp only [List.length_cons, List.length_append] at hlen
+      constructor
+      · cases fl with
+        | nil => rfl
+        | cons _ _ => simp only [List.length_cons] at hlen; omega
+      · cases ds with
+        | nil => rfl
+        | cons _ _ => simp only [List.length_cons] at hlen; omega
+    obtain ⟨rfl, rfl⟩ := this
+    refine Or.inr ⟨[c], [], by simp, ?_, by simp⟩
+    rcases hc with h | h | h <;> subst h <;> simp
+
+theorem FmtsOK_digit (fmts : Bytes) (c : UInt8) (hc : 48 ≤ c ∧ c ≤ 57) (h : FmtsOK fmts)
+    (hne : fmts.length > 0) : FmtsOK (fmts ++ [c]) := by
+  rcases h with h | ⟨fl, ds, h, hfl, hds⟩
+  · subst h; simp at hne
+  · subst h
+    refine Or.inr ⟨fl, ds ++ [c], by simp, hfl, ?_⟩
+    intro d hd
+    rcases List.mem_append.1 hd with hd | hd
+    · exact hds d hd
+    · simp only [List.mem_singleton] at hd; subst hd; rw [isDec_iff]; exact hc
+
+theorem step_good_none (c : UInt8) (rest : Bytes) (st : St) (h : st.fmts = []) :
+    (step none c rest st).good none := by
+  unfold step
+  obtain ⟨o, k, he⟩ := escape_eq rest
+  by_cases h92 : c = 92
+  · simp [h92, he, Step.good, Inv, h]
+  · simp [h92, h, Step.good, Inv]
+
+theorem step_good_some (f : Bytes → Res) (c : UInt8) (rest : Bytes) (st : St)
+    (hf : ∀ a, (f a).good) (h : FmtsOK st.fmts) : (step (some f) c rest st).good (some f) := by
+  unfold step
+  obtain ⟨o, k, he⟩ := escape_eq rest
+  by_cases h92 : c = 92
+  · simp only [h92, he, if_true, Step.good, Inv]; exact ⟨h, hf⟩
+  simp only [h92, if_false]
+  by_cases hlen : st.fmts.length > 0
+  · simp only [hlen, if_true]
+    by_cases h37 : c = 37
+    · simp only [h37, if_true, Step.good, Inv]; exact ⟨FmtsOK_nil, hf⟩
+    simp only [h37, if_false]
+    by_cases h99 : c = 99
+    · simp only [h99, if_true]
+      cases hargs : st.args with
+      | nil => simp only [List.length_nil, Nat.lt_irrefl, gt_iff_lt, if_false, Step.good, Inv]; exact ⟨FmtsOK_nil, hf⟩
+      | cons a as =>
+        simp only [List.length_cons, gt_iff_lt, Nat.zero_lt_succ, if_true, popArg_cons]
+        cases a with
+        | nil => simp only [List.length_nil, Nat.lt_irrefl, if_false, Step.good, Inv]; exact ⟨FmtsOK_nil, hf⟩
+        | cons b bs =>
+          simp only [List.length_cons, Nat.zero_lt_succ, if_true, idx?, List.getElem?_cons_zero, Step.good, Inv]
+          exact ⟨FmtsOK_nil, hf⟩
+    simp only [h99, if_false]
+    by_cases hflag : c = 43 ∨ c = 45 ∨ c = 32
+    · simp only [hflag, if_true]
+      by_cases hl1 : st.fmts.length > 1
+      · simp only [hl1, if_true, Step.good, Res.good]
+      · simp only [hl1, if_false, Step.good, Inv]
+        exact ⟨FmtsOK_flag _ _ hflag h hlen hl1, hf⟩
+    simp only [hflag, if_false]
+    by_cases hdig : 48 ≤ c ∧ c ≤ 57
+    · simp only [hdig, and_self, if_true, Step.good, Inv]
+      exact ⟨FmtsOK_digit _ _ hdig h hlen, hf⟩
+    simp only [hdig, if_false]
+    by_cases hverb : c = 115 ∨ c = 98 ∨ isNumVerb c = true
+    · simp only [hverb, if_true]
+      have hpop : ∃ arg args', popArg st.args = some (arg, args') := by
+        cases st.args with
+        | nil => exact ⟨_, _, popArg_nil⟩
+        | cons a as => exact ⟨_, _, popArg_cons a as⟩
+      obtain ⟨arg, args', hpop⟩ := hpop
+      simp only [hpop]
+      by_cases h98 : c = 98
+      · simp only [h98, if_true]
+        have := hf arg
+        cases hfa : f arg with
+        | ok o n => simp only [Step.good, Inv]; exact ⟨FmtsOK_nil, hf⟩
+        | err o e => simp only [Step.good, Res.good]
+        | panic => rw [hfa] at this; exact this.elim
+        | unmodelled => rw [hfa] at this; exact this.elim
+      · simp only [h98, if_false]
+        have hne : st.fmts ≠ [] := by intro h0; rw [h0] at hlen; simp at hlen
+        have hvok : VerbOK (if c = 105 ∨ c = 117 then 100 else c)
+            (if c = 115 then FArg.str arg else if c = 105 ∨ c = 100 then FArg.int (parseInt arg).1
+              else FArg.uint (toU64 (parseInt arg).1)) := by
+          have hc : c = 115 ∨ c = 100 ∨ c = 105 ∨ c = 117 ∨ c = 111 ∨ c = 120 := by
+            rcases hverb with h | h | h
+            · exact Or.inl h
+            · exact absurd h h98
+            · simp only [isNumVerb, Bool.or_eq_true, decide_eq_true_eq] at h
+              rcases h with (((h | h) | h) | h) | h
+              · exact Or.inr (Or.inl h)
+              · exact Or.inr (Or.inr (Or.inl h))
+              · exact Or.inr (Or.inr (Or.inr (Or.inl h)))
+              · exact Or.inr (Or.inr (Or.inr (Or.inr (Or.inl h))))
+              · exact Or.inr (Or.inr (Or.inr (Or.inr (Or.inr h))))
+          rcases hc with h | h | h | h | h | h <;> subst h <;> simp [VerbOK]
+        have hsome := goFprintf_isSome st.fmts _ _ hne h hvok
+        cases hg : goFprintf (st.fmts ++ [if c = 105 ∨ c = 117 then 100 else c])
+            (if c = 115 then FArg.str arg else if c = 105 ∨ c = 100 then FArg.int (parseInt arg).1
+              else FArg.uint (toU64 (parseInt arg).1)) with
+        | none => rw [hg] at hsome; simp at hsome
+        | some o => simp only [Step.good, Inv]; exact ⟨FmtsOK_nil, hf⟩
+    · simp only [hverb, if_false, Step.good, Res.good]
+  · simp only [hlen, if_false, Option.isSome_some, true_and]
+    by_cases h37 : c = 37
+    · simp only [h37, if_true, Step.good, Inv]; exact ⟨FmtsOK_pct, hf⟩
+    · simp only [h37, if_false, Step.good, Inv]; exact ⟨h, hf⟩
+
+theorem step_good (nested : Option (Bytes → Res)) (c : UInt8) (rest : Bytes) (st : St)
+    (h : Inv nested st.fmts) : (step nested c rest st).good nested := by
+  cases nested with
+  | none => exact step_good_none c rest st h
+  | some f => exact step_good_some f c rest st h.2 h.1
+
+theorem go_good (nested : Option (Bytes → Res)) :
+    ∀ (f : Bytes) (k : Nat) (st : St), Inv nested st.fmts → (go nested f k st).good
+  | [], k, st, _ => by
+    rw [go_nil]; split <;> trivial
+  | c :: rest, k + 1, st, h => by
+    rw [go_skip]; exact go_good nested rest k st h
+  | c :: rest, 0, st, h => by
+    rw [go_zero]
+    have hs := step_good nested c rest st h
+    cases hstep : step nested c rest st with
+    | cont o st' k =>
+      rw [hstep] at hs
+      exact Res.good_prepend (go_good nested rest k st' hs)
+    | stop r => rw [hstep] at hs; exact hs
+
+theorem formatNil_good (f : Bytes) : (formatNil f).good := go_good none f 0 _ rfl
+
+theorem formatArgs_good (f : Bytes) (args : List Bytes) : (formatArgs f args).good :=
+  go_good (some formatNil) f 0 _ ⟨FmtsOK_nil, formatNil_good⟩
+
+/-! ## the hook view and the builtins -/
+
+theorem formatInto_obs (f : Bytes) (args : List Bytes) (nil : Bool) :
+    ∃ o, formatInto f args nil = .obs o := by
+  unfold formatInto
+  cases nil with
+  | true =>
+    have h := formatNil_good f
+    cases hr : formatNil f <;> simp_all [Res.good]
+  | false =>
+    have h := formatArgs_good f args
+    cases hr : formatArgs f args <;> simp_all [Res.good]
+
+theorem formatInto_false (f : Bytes) (args : List Bytes) :
+    formatInto f args false =
+      match formatArgs f args with
+      | .ok out left => .obs { out := out, consumed := args.length - left, err := none }
+      | .err out e => .obs { out := out, consumed := 0, err := some e }
+      | .panic => .panic
+      | .unmodelled => .unmodelled := by
+  simp only [formatInto, Bool.false_eq_true, if_false]
+  cases formatArgs f args <;> rfl
+
+theorem format_false (f : Bytes) (args : List Bytes) :
+    format f args false =
+      match formatArgs f args with
+      | .ok out left => .obs { out := out, consumed := args.length - left, err := none }
+      | .err _ e => .obs { out := [], consumed := 0, err := some e }
+      | .panic => .panic
+      | .unmodelled => .unmodelled := by
+  unfold format
+  rw [formatInto_false]
+  cases formatArgs f args <;> simp
+
+theorem slice_drop (args : List Bytes) (n : Nat) (h : n ≤ args.length) :
+    slice? args n args.length = some (args.drop n) := by
+  have : (args.drop n).take (args.length - n) = args.drop n :=
+    List.take_of_length_le (by simp)
+  simp [slice?, h, this]
+
+/-- One unrolling of the printf loop in terms of `formatArgs`. -/
+theorem printfLoop_succ (fuel : Nat) (fmt : Bytes) (args : List Bytes) (acc : Bytes) :
+    printfLoop (fuel + 1) fmt args acc =
+      match formatArgs fmt args with
+      | .ok out left =>
+        if args.length - left = 0 ∨ (args.drop (args.length - left)).length = 0 then
+          .done { out := acc ++ out, status := 0 }
+        else printfLoop fuel fmt (args.drop (args.length - left)) (acc ++ out)
+      | .err _ _ => .done { out := acc, status := 1 }
+      | .panic => .panic
+      | .unmodelled => .unmodelled := by
+  simp only [printfLoop, format_false]
+  cases formatArgs fmt args with
+  | ok out left =>
+    have h : args.length - left ≤ args.length := Nat.sub_le ..
+    simp [slice_drop _ _ h]
+  | err out e => simp
+  | panic => rfl
+  | unmodelled => rfl
+
+/-! ## how an iteration depends on the argument list -/
+
+/-- Does the iteration `c` (with the given `fmts`) take an argument? -/
+def pops (fmts : Bytes) (c : UInt8) : Bool :=
+  decide (c ≠ 92) && decide (fmts.length > 0) &&
+    (decide (c = 99) || decide (c = 115) || decide (c = 98) || isNumVerb c)
+
+def Step.withArgs (a : List Bytes) : Step → Step
+  | .cont o st k => .cont o { st with args := a } k
+  | .stop r => .stop r
+
+theorem isNumVerb_iff (c : UInt8) :
+    isNumVerb c = true ↔ c = 100 ∨ c = 105 ∨ c = 117 ∨ c = 111 ∨ c = 120 := by
+  simp [isNumVerb, or_assoc]
+
+theorem verb_facts (c : UInt8) (h : c = 99 ∨ c = 115 ∨ c = 98 ∨ isNumVerb c = true) :
+    c ≠ 37 ∧ ¬ (c = 43 ∨ c = 45 ∨ c = 32) ∧ ¬ (48 ≤ c ∧ c ≤ 57) := by
+  rw [isNumVerb_iff] at h
+  rcases h with h | h | h | h | h | h | h | h <;> subst h <;> decide
+
+/-- An iteration that takes no argument leaves the list alone and does not look at it. -/
+theorem step_nopop (n : Option (Bytes → Res)) (c : UInt8) (rest : Bytes) (fmts : Bytes)
+    (args : List Bytes) (h : pops fmts c = false) :
+    step n c rest ⟨fmts, args⟩ = (step n c rest ⟨fmts, []⟩).withArgs args := by
+  unfold step
+  by_cases h92 : c = 92
+  · simp only [h92, if_true]
+    cases escape rest with
+    | none => rfl
+    | some p => rfl
+  simp only [h92, if_false]
+  by_cases hlen : fmts.length > 0
+  · simp only [hlen, if_true]
+    simp only [pops, h92, hlen, ne_eq, not_false_eq_true, decide_true, Bool.true_and,
+      Bool.or_eq_false_iff, decide_eq_false_iff_not] at h
+    obtain ⟨⟨⟨h99, h115⟩, h98⟩, hnum⟩ := h
+    have hnv : ¬ (c = 115 ∨ c = 98 ∨ isNumVerb c = true) := by simp [h115, h98, hnum]
+    simp only [h99, hnv, if_false]
+    repeat' split
+    all_goals rfl
+  · simp only [hlen, if_false]
+    split <;> rfl
+
+theorem pops_iff (fmts : Bytes) (c : UInt8) :
+    pops fmts c = true ↔ c ≠ 92 ∧ fmts.length > 0 ∧ (c = 99 ∨ c = 115 ∨ c = 98 ∨ isNumVerb c = true) := by
+  simp [pops, and_assoc, or_assoc]
+
+/-- An iteration that takes an argument sees only the first one (an empty string when there is
+    none) and continues with the others. -/
+theorem step_pop (n : Option (Bytes → Res)) (c : UInt8) (rest : Bytes) (fmts : Bytes)
+    (args : List Bytes) (h : pops fmts c = true) :
+    step n c rest ⟨fmts, args⟩ = (step n c rest ⟨fmts, [args.headD []]⟩).withArgs args.tail := by
+  rw [pops_iff] at h
+  obtain ⟨h92, hlen, hv⟩ := h
+  obtain ⟨h37, hnf, hnd⟩ := verb_facts c hv
+  unfold step
+  simp only [h92, hlen, h37, if_false, if_true]
+  by_cases h99 : c = 99
+  · subst h99
+    simp only [if_true]
+    cases args with
+    | nil => simp [popArg_cons, Step.withArgs]
+    | cons a as =>
+      simp only [List.length_cons, gt_iff_lt, Nat.zero_lt_succ, if_true, popArg_cons, List.headD_cons,
+        List.length_nil, Nat.zero_add, List.tail_cons]
+      split
+      · split <;> rfl
+      · rfl
+  · have hverb : c = 115 ∨ c = 98 ∨ isNumVerb c = true := by
+      rcases hv with hv | hv
+      · exact absurd hv h99
+      · exact hv
+    simp only [h99, hnf, hnd, hverb, if_false, if_true]
+    cases args with
+    | nil =>
+      simp only [popArg_nil, popArg_cons, List.headD_nil, List.tail_nil]
+      repeat' split
+      all_goals simp_all [Step.withArgs]
+    | cons a as =>
+      simp only [popArg_cons, List.headD_cons, List.tail_cons]
+      repeat' split
+      all_goals simp_all [Step.withArgs]
+
+/-- With a nil args slice nothing but escapes is processed: the result is always `ok … 0`. -/
+theorem go_none_ok : ∀ (f : Bytes) (k : Nat), ∃ o, go none f k ⟨[], []⟩ = .ok o 0
+  | [], k => ⟨[], by rw [go_nil]; rfl⟩
+  | c :: rest, k + 1 => by rw [go_skip]; exact go_none_ok rest k
+  | c :: rest, 0 => by
+    rw [go_zero]
+    obtain ⟨o, k, he⟩ := escape_eq rest
+    by_cases h92 : c = 92
+    · obtain ⟨o', h'⟩ := go_none_ok rest k
+      exact ⟨o ++ o', by simp [step, h92, he, h', Res.prepend]⟩
+    · obtain ⟨o', h'⟩ := go_none_ok rest 0
+      exact ⟨[c] ++ o', by simp [step, h92, h', Res.prepend]⟩
+
+theorem formatNil_ok (f : Bytes) : ∃ o, formatNil f = .ok o 0 := go_none_ok f 0
+
+/-- The nested formatter of `%b` never fails. -/
+def NestedOK (n : Option (Bytes → Res)) : Prop :=
+  match n with
+  | none => True
+  | some f => ∀ a, ∃ o l, f a = .ok o l
+
+theorem nestedOK_formatNil : ∀ a, ∃ o l, formatNil a = .ok o l := fun a =>
+  let ⟨o, h⟩ := formatNil_ok a; ⟨o, 0, h⟩
+
+theorem good_of_ok (f : Bytes → Res) (hf : ∀ a, ∃ o l, f a = .ok o l) : ∀ a, (f a).good := fun a => by
+  obtain ⟨o, l, h⟩ := hf a; rw [h]; trivial
+
+/-- An argument-taking iteration always continues, with `fmts` reset. -/
+theorem step_pop_cont (f : Bytes → Res) (hf : ∀ a, ∃ o l, f a = .ok o l) (c : UInt8) (rest : Bytes)
+    (fmts : Bytes) (a : Bytes) (hinv : FmtsOK fmts) (h : pops fmts c = true) :
+    ∃ o, step (some f) c rest ⟨fmts, [a]⟩ = .cont o ⟨[], []⟩ 0 := by
+  have hgood := step_good_some f c rest ⟨fmts, [a]⟩ (good_of_ok f hf) hinv
+  rw [pops_iff] at h
+  obtain ⟨h92, hlen, hv⟩ := h
+  obtain ⟨h37, hnf, hnd⟩ := verb_facts c hv
+  revert hgood
+  unfold step
+  simp only [h92, hlen, h37, if_false, if_true]
+  by_cases h99 : c = 99
+  · subst h99
+    simp only [if_true, List.length_cons, List.length_nil, Nat.zero_add, gt_iff_lt, Nat.lt_add_one,
+      popArg_cons]
+    intro _
+    split
+    · split
+      · exact ⟨_, rfl⟩
+      · rename_i h1 _ h2
+        cases a with
+        | nil => simp at h1
+        | cons b bs => simp [idx?] at h2
+    · exact ⟨_, rfl⟩
+  · have hverb : c = 115 ∨ c = 98 ∨ isNumVerb c = true := by
+      rcases hv with hv | hv
+      · exact absurd hv h99
+      · exact hv
+    simp only [h99, hnf, hnd, hverb, if_false, if_true, popArg_cons]
+    by_cases h98 : c = 98
+    · simp only [h98, if_true]
+      obtain ⟨o, l, ho⟩ := hf a
+      simp only [ho]
+      intro _; exact ⟨_, rfl⟩
+    · simp only [h98, if_false]
+      split
+      · intro _; exact ⟨_, rfl⟩
+      · intro hg; exact hg.elim
+
+end ShVerif.C24
